@@ -1,4 +1,5 @@
 //! Runs the real implementation on case files; prints canonical observations (one JSON per line).
+mod slices;
 mod write;
 
 fn main() {
@@ -10,6 +11,7 @@ fn main() {
     let input = if args.len() > 2 { std::fs::read_to_string(&args[2]).expect("read casefile") } else { String::new() };
     match args[1].as_str() {
         "write" => write::run(&input),
+        "slices" => slices::run(&input),
         other => {
             eprintln!("unknown area {other}");
             std::process::exit(2);
